@@ -216,7 +216,8 @@ func (eval *Evaluator) evaluateFromDiscreteLogSets(GaloisElement func(k int) (ga
 	v++
 
 	// Second and third conditions of line 7 or 17
-	if v == windowSize || k == 1 {
+	// (the last step of the negative sets is k == -1: nothing may stay pending when the units are processed)
+	if v == windowSize || k == 1 || k == -1 {
 
 		if err := eval.Automorphism(acc, GaloisElement(v), acc); err != nil {
 			return v, err
@@ -246,7 +247,12 @@ func getGaloisElementInverseMap(GaloisGen uint64, N int) (GaloisGenDiscreteLog m
 	for i := 0; i < NHalf; i++ {
 		GaloisGenDiscreteLog[pow] = i
 		/* #nosec G115 -- twoN cannot be negative */
-		GaloisGenDiscreteLog[uint64(twoN)-pow] = -i
+		if i == 0 {
+			// -g^0 = -1: "0 in the negative set" is looked up under 2N (and not under -0 = 0, which is +1)
+			GaloisGenDiscreteLog[uint64(twoN)-pow] = twoN
+		} else {
+			GaloisGenDiscreteLog[uint64(twoN)-pow] = -i
+		}
 		pow *= GaloisGen
 		pow &= mask
 	}
@@ -265,6 +271,11 @@ func (eval *Evaluator) getDiscreteLogSets(a []uint64) (discreteLogSets map[int][
 
 		if ai&1 != 1 && ai != 0 {
 			panic("getDiscreteLogSets: a[i] is not odd and thus not an element of Z_{2N}^{*} -> a[i] = (+/- 1) * g^{k} does not exist.")
+		}
+
+		// a[i] = 0 contributes X^{0 * s[i]} = 1: it is in no set
+		if ai == 0 {
+			continue
 		}
 
 		dlog := GaloisGenDiscreteLog[ai]
